@@ -583,6 +583,96 @@ def rule_normarms(ctx):
     return res.finish(3)
 
 
+def rule_normzero(ctx):
+    """`norm scaling gives every non-zero row unit norm`: a row is left alone only when its norm is zero, and a norm (a sum or
+    maximum of absolute values, or the root of a sum of squares) is zero exactly when every entry is.  A zero test with an
+    absolute tolerance (`abs_diff_eq!(norm, 0)`: the machine epsilon) also catches non-zero rows measured in a small unit,
+    which then come back unscaled."""
+    from .zeroskip import zero_test_kind
+    res = RuleResult("R-C16-normzero", "NormScaler leaves a row unscaled only under an exact comparison of its norm with zero")
+    F = ctx.facts()
+    fns = [f for f in F.all_fns() if f["d"]["krate"] == "linfa_preprocessing" and f["d"]["name"] == "transform" and fn_file(f).endswith("norm_scaling.rs") and not f.get("exp")]
+    n = 0
+    for fn in fns:
+        c = fn["crate"]
+        key = fn_key(fn)
+        for y in walk(fn["body"]):
+            if y.get("k") != "If":
+                continue
+            kind = zero_test_kind(c, y["c"])
+            if kind is None:
+                continue
+            n += 1
+            res.instance("%s : zero test `%s`" % (key, Render(c).e(strip(y["c"]))[:50]))
+            if kind == "exact":
+                res.ok()
+            else:
+                res.violate("%s : norm-zero-test-with-absolute-tolerance" % key, "`%s` decides whether the row is divided by its norm with an absolute tolerance (the machine epsilon): a non-zero row whose norm is below it (a row measured in a small unit) is returned unscaled instead of with unit norm" % Render(c).e(strip(y["c"]))[:60], fn_loc(fn, y.get("ln")))
+    if n < 1:
+        res.missing_anchor("the zero test on the row norm in NormScaler::transform")
+    return res.finish(1)
+
+
+def rule_absfloor(ctx):
+    """`whitening gives identity sample covariance on full-rank data`, whatever the unit of the data.  The spectrum of the
+    (centred) data scales with that unit, so a floor on it - or on its inverse - that is an absolute constant binds for data
+    that is small (large) enough, full rank or not, and the whitened covariance is no longer the identity.  Each clamp of a
+    spectrum value by a positive literal in Whitener::fit is a site; it is keyed by the arm it sits in and by what is clamped
+    (the value that is inverted afterwards, or the inverse itself)."""
+    res = RuleResult("R-C16-absfloor", "no singular value / eigenvalue (or its inverse) is clamped by an absolute constant in Whitener::fit")
+    F = ctx.facts()
+    fns = [f for f in F.all_fns() if f["d"]["krate"] == "linfa_preprocessing" and f["d"]["name"] == "fit" and fn_file(f).endswith("whitening.rs") and not f.get("exp")]
+    n = 0
+    from .layout import with_parents
+    for fn in fns:
+        c = fn["crate"]
+        key = fn_key(fn)
+        n += 1
+        res.instance("%s : spectrum clamps" % key)
+        found = False
+        for y, anc in with_parents(fn["body"]):
+            if y.get("k") not in ("MethodCall", "Call"):
+                continue
+            nm = y.get("name") if y.get("k") == "MethodCall" else (c.dfn(strip(y["f"]).get("def")) or {}).get("name")
+            if nm not in ("max", "min", "clamp"):
+                continue
+            operands = ([y["recv"]] + list(y["args"])) if y.get("k") == "MethodCall" else list(y["args"])
+            lits = []
+            for o in operands:
+                o = peel_refs(o)
+                while o.get("k") == "Call" and len(o.get("args", [])) == 1 and (c.dfn(strip(o["f"]).get("def")) or {}).get("name") in ("cast", "from", "from_f64", "from_f32"):
+                    o = peel_refs(o["args"][0])
+                if o.get("k") == "MethodCall" and o["name"] == "unwrap":
+                    o = peel_refs(o["recv"])
+                    while o.get("k") == "Call" and len(o.get("args", [])) == 1:
+                        o = peel_refs(o["args"][0])
+                if o.get("k") == "Lit" and o.get("lk") in ("float", "int"):
+                    lits.append(o)
+            if not lits or not any(a.get("k") == "Closure" for a in anc):
+                continue
+            # which arm of the method dispatcher
+            arm = "?"
+            for a in anc:
+                if a.get("k") == "Match" and a.get("src", "Normal") == "Normal":
+                    for ar in a["arms"]:
+                        if any(z is y for z in walk(ar["body"])):
+                            p_ = ar["pat"]
+                            while p_.get("k") == "Ref":
+                                p_ = p_["pat"]
+                            arm = (c.dfn(p_.get("def")) or {}).get("name") or arm
+            others = [peel_refs(o) for o in operands if peel_refs(o) not in lits]
+            inv = any(z.get("k") == "Binary" and z["op"] == "/" for o in operands for z in walk(o)) or any(z.get("k") == "MethodCall" and z["name"] == "recip" for o in operands for z in walk(o))
+            what = "inverse" if inv else "value"
+            found = True
+            k2 = "%s : absolute-floor:%s:%s" % (key, arm, what)
+            res.violate(k2, "in the %s arm a spectrum %s is clamped with the absolute constant %s: the spectrum scales with the unit of the data, so for full-rank data that is %s enough the clamp binds and the whitened covariance is not the identity" % (arm, "value's inverse" if inv else "value", lits[0].get("v"), "large" if inv else "small"), fn_loc(fn, y.get("ln")))
+        if not found:
+            res.ok()
+    if n < 1:
+        res.missing_anchor("Whitener::fit")
+    return res.finish(1)
+
+
 def rule_stale(ctx):
     """no field of a fitted model is computed from a local that is stored in another field and mutated in between (rules/stale.py)"""
     from . import stale
@@ -610,7 +700,7 @@ def rules(tier):
     from . import blockmean, skipfield, sizeroute
     return [sizeroute.make_rule("R-C16-sizeroute", lambda f: f["d"]["krate"] == "linfa_preprocessing", "linfa-preprocessing"),
             skipfield.make_rule("R-C16-skipfield", {"linfa_preprocessing"}, "linfa-preprocessing (scalers, whitener, vectorizers)", 3),
-            blockmean.make_rule("R-C16-blockmean", lambda f: f["d"]["krate"] == "linfa_preprocessing" and any(x in fn_file(f) for x in ("linear_scaling", "norm_scaling", "whitening")), "the scalers and whiteners of linfa-preprocessing"), rule_fitted, rule_normarms, rule_meta, rule_empty, rule_div, rule_affine, rule_extrema, rule_memorder, rule_stale,
+            blockmean.make_rule("R-C16-blockmean", lambda f: f["d"]["krate"] == "linfa_preprocessing" and any(x in fn_file(f) for x in ("linear_scaling", "norm_scaling", "whitening")), "the scalers and whiteners of linfa-preprocessing"), rule_fitted, rule_normarms, rule_normzero, rule_absfloor, rule_meta, rule_empty, rule_div, rule_affine, rule_extrema, rule_memorder, rule_stale,
             carry.make_clone_rule("R-C16-clone", {"linfa_preprocessing"}, 8), carry.make_setter_rule("R-C16-override", {"linfa_preprocessing"}, 4),
             precision.make_rule("R-C16-precision", lambda f: f["d"]["krate"] == "linfa_preprocessing" and any(x in fn_file(f) for x in ("linear_scaling", "norm_scaling", "whitening")), 25, "linfa-preprocessing scalers and whiteners"),
             carry.make_accessor_rule("R-C16-accessor", {"linfa_preprocessing"}, 6), carry.make_ctor_rule("R-C16-ctor", {"linfa_preprocessing"}, 2)]
